@@ -430,7 +430,8 @@ func replay(c *mcx.Ctx, raw json.RawMessage) (string, string) {
 func init() {
 	mcx.Register(&mcx.Driver{
 		ID: "C05", Run: run, Replay: replay,
-		Rule: "full product: layouts with 1..3 steps x the step that has several links x threshold 1..3 x 0/1 valid links beyond the threshold x {no difference, one of 13 single-point differences (material/product path added, removed, renamed, re-spelled as ./path, digest changed, algorithm renamed, algorithm added) on link j} x summary name {\"\",x} x {legacy, DSSE}; also with an inspection that bears the name of the first / last step and records other artifacts, and with every other step carrying two agreeing links for threshold 2 (a later step in order must not hide an earlier disagreement); " +
+		Rule: "also: all links and rules spelling paths ./name (the summary reports them as the links do); link name fields rotated among the steps while file names stay; " +
+			"full product: layouts with 1..3 steps x the step that has several links x threshold 1..3 x 0/1 valid links beyond the threshold x {no difference, one of 13 single-point differences (material/product path added, removed, renamed, re-spelled as ./path, digest changed, algorithm renamed, algorithm added) on link j} x summary name {\"\",x} x {legacy, DSSE}; also with an inspection that bears the name of the first / last step and records other artifacts, and with every other step carrying two agreeing links for threshold 2 (a later step in order must not hide an earlier disagreement); " +
 			"plus every non-empty subset of {unsigned, unauthorised, tampered} uncounted links carrying other artifacts, a link validly signed by a functionary of the other steps only, unparsable files named like links of the step (sorting before, between and after the real ones), and those together x strict/permissive rules; a digest difference on each counted link next to the unparsable files; each case under EVERY iteration order of the reference-link pick, the link comparison and the counting loop (the comparison loop and every other map range: one order deviation, for cases with <= 2 links in quick and all cases in thorough; quick has at most 3 links per step, thorough 4). Counted links always differ in command and by-products (which is legitimate). " +
 			"non-trivial = more than one counted link or some uncounted link. states = cases, transitions = choice points passed.",
 		Assumptions: []string{"which links count is known by construction", "iteration order inside dependencies is not owned"},
